@@ -2,7 +2,8 @@
    Only statements closed by [exact]; proofs live in C07/. *)
 From Coq Require Import List QArith Reals Ring.
 From PV Require Import C07.CxBase C07.GatesGen C07.MomentsModel C07.GatesModel C07.SumLemmas
-  C07.MomentsProofs C07.RealOps C07.GatesProofs C07.DisplacementProofs C07.CxReal.
+  C07.MomentsProofs C07.RealOps C07.GatesProofs C07.DisplacementProofs C07.CxReal
+  C07.MatF C07.StepK C07.SeqProofs C07.QuadProofs C07.RealSeq C07.RealQuad C07.RealGate.
 Import ListNotations.
 Open Scope R_scope.
 
@@ -144,6 +145,126 @@ Theorem C07_displacement_shift : forall (d j : nat) (rr phi hbar : R) (st : gsta
     List.nth i mean' 0 = List.nth i mean 0 /\ List.nth (d + i) mean' 0 = List.nth (d + i) mean 0.
 Proof. exact displacement_shift. Qed.
 Print Assumptions C07_displacement_shift.
+
+(* 3b. the passive path (_apply_passive_linear_to_C_and_G / _to_auxiliary_modes): congruence by the
+   embedded matrix for every d and every duplicate-free tuple of modes in any order *)
+Theorem C07_passive_update_is_congruence :
+  forall (A : Type) (co : COps A),
+  ring_theory (z0 co) (z1 co) (zadd co) (zmul co) (zsub co) (zopp co) eq ->
+  zconj co (z0 co) = z0 co -> zconj co (z1 co) = z1 co ->
+  (forall x y, zconj co (zadd co x y) = zadd co (zconj co x) (zconj co y)) ->
+  (forall x y, zconj co (zmul co x y) = zmul co (zconj co x) (zconj co y)) ->
+  (forall x, zconj co (zconj co x) = x) ->
+  forall (d : nat) (modes : list nat) (T C G : mat),
+  NoDup modes -> (forall m, In m modes -> (m < d)%nat) ->
+  (forall i j, (i < d)%nat -> (j < d)%nat -> zconj co (get co C j i) = get co C i j) ->
+  (forall i j, (i < d)%nat -> (j < d)%nat -> get co G j i = get co G i j) ->
+  forall i j, (i < d)%nat -> (j < d)%nat ->
+  (get co (fst (apply_passive_CG co d T modes C G)) i j = C_pspec co d modes T C i j /\
+   get co (snd (apply_passive_CG co d T modes C G)) i j = G_pspec co d modes T G i j) /\
+  (zconj co (get co (fst (apply_passive_CG co d T modes C G)) j i)
+     = get co (fst (apply_passive_CG co d T modes C G)) i j /\
+   get co (snd (apply_passive_CG co d T modes C G)) j i
+     = get co (snd (apply_passive_CG co d T modes C G)) i j).
+Proof.
+  intros A co Ath c0' c1' ca cm cc d modes T C G Hnd Hlt HC HG i j Hi Hj. split.
+  - exact (passive_CG_is_congruence co Ath c0' c1' ca cm cc d modes T [] C G Hnd Hlt HC HG i j Hi Hj).
+  - exact (passive_herm_sym_invariant co Ath c0' c1' ca cm cc d modes T [] C G Hnd Hlt HC HG i j Hi Hj).
+Qed.
+Print Assumptions C07_passive_update_is_congruence.
+
+Theorem C07_passive_mean_is_congruence :
+  forall (A : Type) (co : COps A),
+  ring_theory (z0 co) (z1 co) (zadd co) (zmul co) (zsub co) (zopp co) eq ->
+  forall (d : nat) (modes : list nat) (T : mat),
+  NoDup modes -> (forall m, In m modes -> (m < d)%nat) ->
+  forall (m : vec) i, (i < d)%nat ->
+  getv co (assign_vec co d m modes (mvmul co (length modes) (length modes) T (read_vec co m modes))) i
+  = sumn co d (fun t => zmul co (embedP co modes T i t) (getv co m t)).
+Proof. exact (@passive_mean_is_congruence). Qed.
+Print Assumptions C07_passive_mean_is_congruence.
+
+(* 5. sequence_congruence: for any list of passive / active / displacement steps whose blocks are
+   unitary / symplectic on duplicate-free modes, the final state is the congruence of
+   K = [[C^T + I, G], [G^dagger, C]] by the ordered product of the embedded 2d x 2d matrices, the mean
+   (m, conj m) is multiplied by the same product and shifted by the accumulated displacement, and
+   C stays Hermitian and G symmetric (induction over the list) *)
+Theorem C07_sequence_congruence :
+  forall (A : Type) (co : COps A),
+  ring_theory (z0 co) (z1 co) (zadd co) (zmul co) (zsub co) (zopp co) eq ->
+  zconj co (z0 co) = z0 co -> zconj co (z1 co) = z1 co ->
+  (forall x y, zconj co (zadd co x y) = zadd co (zconj co x) (zconj co y)) ->
+  (forall x y, zconj co (zmul co x y) = zmul co (zconj co x) (zconj co y)) ->
+  (forall x, zconj co (zconj co x) = x) ->
+  forall (d : nat) (prog : list lop) (s : gstate),
+  Forall (valid co d) prog -> herm co d (st_C s) -> symm co d (st_G s) ->
+  let s' := lrun co d prog s in
+  eqm (d + d) (Kof co d (st_C s') (st_G s'))
+      (cong co (d + d) (Stot co d prog) (Kof co d (st_C s) (st_G s))) /\
+  eqv (d + d) (muc co d (st_m s'))
+      (addv co (mvf co (d + d) (Stot co d prog) (muc co d (st_m s))) (shift co d prog)) /\
+  herm co d (st_C s') /\ symm co d (st_G s').
+Proof. exact (@sequence_congruence). Qed.
+Print Assumptions C07_sequence_congruence.
+
+(* ... instantiated: programs of built-in gates with arbitrary real parameters, Interferometers,
+   Gaussian transformations and displacements, as dispatched by GatesModel.run *)
+Theorem C07_gates_sequence_real : forall d (prog : list (@op R)) s,
+  Forall (op_ok d) prog -> herm RC d (st_C s) -> symm RC d (st_G s) ->
+  let s' := run ROps d prog s in
+  let lp := map (lop_of ROps) prog in
+  eqm (d + d) (Kof RC d (st_C s') (st_G s'))
+      (cong RC (d + d) (Stot RC d lp) (Kof RC d (st_C s) (st_G s))) /\
+  eqv (d + d) (muc RC d (st_m s'))
+      (addv RC (mvf RC (d + d) (Stot RC d lp) (muc RC d (st_m s))) (shift RC d lp)) /\
+  herm RC d (st_C s') /\ symm RC d (st_G s').
+Proof. exact gates_sequence_real. Qed.
+Print Assumptions C07_gates_sequence_real.
+
+(* 6. the real-quadrature reading (abstract): K' = S K S^dagger implies sigma' = Sr sigma Sr^T for
+   sigma = hb (2 [[Re(G+C), Im(G+C)], [Im(G-C), Re(C-G)]] + I) and the real matrix
+   Sr = [[Re(Pf+Af), -Im(Pf-Af)], [Im(Pf+Af), Re(Pf-Af)]], for every scale hb *)
+Theorem C07_quadrature_covariance :
+  forall (A : Type) (co : COps A),
+  ring_theory (z0 co) (z1 co) (zadd co) (zmul co) (zsub co) (zopp co) eq ->
+  zconj co (z0 co) = z0 co -> zconj co (z1 co) = z1 co ->
+  (forall x y, zconj co (zadd co x y) = zadd co (zconj co x) (zconj co y)) ->
+  (forall x y, zconj co (zmul co x y) = zmul co (zconj co x) (zconj co y)) ->
+  (forall x, zconj co (zconj co x) = x) ->
+  forall ii half : A,
+  zmul co ii ii = zopp co (z1 co) -> zconj co ii = zopp co ii ->
+  zmul co (zadd co (z1 co) (z1 co)) half = z1 co ->
+  forall (d : nat) (hb : A) (Pf Af Cf Gf C' G' : fmat),
+  eqm d (trf (cjf co Cf)) Cf -> eqm d (trf Gf) Gf ->
+  eqm d (trf (cjf co C')) C' -> eqm d (trf G') G' ->
+  eqm (d + d) (Kblocks co d C' G') (cong co (d + d) (Sof co d Pf Af) (Kblocks co d Cf Gf)) ->
+  eqm (d + d) (sclf co hb (sig0 co ii d C' G'))
+      (mmf co (d + d) (mmf co (d + d) (Sr co ii half d Pf Af) (sclf co hb (sig0 co ii d Cf Gf)))
+           (trf (Sr co ii half d Pf Af))).
+Proof. exact (@quad_cov). Qed.
+Print Assumptions C07_quadrature_covariance.
+
+(* ... and the property as stated, for every built-in gate, all real parameters, every d, every
+   duplicate-free tuple of modes in any order, every hbar (and every value s2h of sqrt(2 hbar)):
+   the modelled xxpp_mean_vector is multiplied by a real matrix S and the modelled
+   xxpp_covariance_matrix becomes S cov S^T *)
+Theorem C07_builtin_gate_acts_as_documented :
+  forall d g theta phi int_ ext r s modes (st : gstate (A := Cx R)) (hbar s2h : R),
+  modes_ok d modes -> length modes = n_modes g ->
+  herm RC d (st_C st) -> symm RC d (st_G st) -> length (st_m st) = d ->
+  let e := env_R theta phi int_ ext r s in
+  let st' := step ROps d (OGate g e modes) st in
+  let S := SrR d modes (passive_block ROps g e) (active_or_nil g e) in
+  (forall i j, (i < d + d)%nat -> (j < d + d)%nat -> snd (S i j) = 0%R) /\
+  (forall i, (i < d + d)%nat ->
+     creal ROps (meanR s2h (st_m st') i)
+     = mvf RC (d + d)%nat S (fun a => creal ROps (meanR s2h (st_m st) a)) i) /\
+  (forall i j, (i < d + d)%nat -> (j < d + d)%nat ->
+     creal ROps (covR d hbar (st_C st') (st_G st') i j)
+     = mmf RC (d + d)%nat (mmf RC (d + d)%nat S (fun a b => creal ROps (covR d hbar (st_C st) (st_G st) a b)))
+         (trf S) i j).
+Proof. exact builtin_gate_acts_as_documented. Qed.
+Print Assumptions C07_builtin_gate_acts_as_documented.
 
 (* non-vacuity: the model runs *)
 Example C07_example_squeezing2_block :
